@@ -48,7 +48,8 @@ Definition gen_grpc_params : MuxBroker.params :=
      expiry_drains := match sel_lookup select_table "grpc_timeoutwait"%string 1 with Some _ => true | None => false end |}.
 
 Definition gen_cmux_params : GrpcMux.cparams :=
-  {| GrpcMux.registers_first := accept_registers_listener_before_knock_goroutine |}.
+  {| GrpcMux.registers_first := accept_registers_listener_before_knock_goroutine;
+     GrpcMux.door_before_ack := knock_opens_door_before_ack |}.
 
 Definition gen_sv_params : Serve.sv_params :=
   {| Serve.svp_core := core_protocol_version; Serve.svp_fields := handshake_format_fields; Serve.svp_mux_key := env_multiplex_grpc |}.
